@@ -39,9 +39,9 @@ def run(chk):
                       'values are small ints / strs / None / lists of them; batches have two elements',
                       'a rejected batch may keep any of its valid elements (alts), as the statement allows']
   # 1. the model: TLC proves the invariant and the action property on the intended semantics
-  mc = ['C03_list.cfg', 'C03_list2_cov.cfg', 'C03_nest.cfg', 'C03_nestp.cfg', 'C03_obj.cfg', 'C03_objp.cfg', 'C03_dict_cov.cfg', 'C03_dictro.cfg', 'C03_dictp_2.cfg']
-  if thorough:
-    mc += ['C03_dict.cfg', 'C03_dictp.cfg', 'C03_list2.cfg', 'C03_list_deep.cfg', 'C03_obj_deep.cfg']
+  mc = ['C03_list.cfg', 'C03_list2_cov.cfg', 'C03_nest.cfg', 'C03_obj.cfg', 'C03_dict_cov.cfg', 'C03_dictro.cfg', 'C03_dictp_2.cfg']
+  if thorough:      # (the partial-mode object / nested configurations are exhaustive in the thorough tier, simulated in both)
+    mc += ['C03_nestp.cfg', 'C03_objp.cfg', 'C03_dict.cfg', 'C03_dictp.cfg', 'C03_list2.cfg', 'C03_list_deep.cfg', 'C03_obj_deep.cfg']
   for cfg in mc:
     typedtree.model_check(chk, cfg)
   # vacuity of the exhaustive runs: every action has transitions out of the initial states (depth-1 state graph)
@@ -73,7 +73,7 @@ def run(chk):
   # 2a. TLC searches the size checks *as coded* for a violation of Conforms; the counter-example is replayed
   typedtree.mirror_search(chk, 'C03_mirror.cfg', 'list', False, hits, models['list'])
   # 2b. simulated behaviours; the second pass stays away from the two mechanisms with open findings
-  n1, d1, n2, d2 = (90, 15, 90, 30) if not thorough else (600, 25, 600, 40)
+  n1, d1, n2, d2 = (80, 15, 80, 30) if not thorough else (600, 25, 600, 40)
   for kind, partial, tag in KINDS:
     # (list2 exists for the extended-slice actions only: more, longer walks over fewer action families)
     add(typedtree.replay_simulated(chk, kind, partial, f'C03_sim_{tag}.cfg', n1 * (2 if kind == 'list2' else 1),
